@@ -1,5 +1,6 @@
 import SciVerif.Tie.Consts
 import SciVerif.Props.C14
+import SciVerif.Tie.Pins
 /-! Tie A obligations for C14 on the current source. -/
 namespace SciVerif.Tie
 open SciVerif.Generated
@@ -55,7 +56,25 @@ theorem c14_split_on_source (abs : Bool) (segs : List Str.S) :
   have h : splitStopEq Scipipe.splitAllPaths = some false := by decide
   rw [h]; exact Fmt.c14_split_returns_all_segments abs segs
 
+
+-- BEGIN PINS (written by bin/mkpins; do not edit by hand)
+/-- the Go functions this property's model and obligations were written against have exactly the
+pinned skeletons (SHA-256 prefix of the atom list) -/
+theorem pinned_skeletons_c14 :
+    pinsOk
+    [("Scipipe.Task_TempDir", "6d565a2ddd3d0eb2"),
+     ("Scipipe.applyPathModifiers", "8f319e3baa487b4a"),
+     ("Scipipe.getShellCommandPlaceHolderRegex", "2974b35d7f6e39cc"),
+     ("Scipipe.pathIsValid", "769a2bbc57bb6972"),
+     ("Scipipe.sanitizePathFragment", "eb309140aa9dd69d"),
+     ("Scipipe.sortedFileIPMapKeys", "f65d6e00fb717f3e"),
+     ("Scipipe.sortedFileIPSliceMapKeys", "f65d6e00fb717f3e"),
+     ("Scipipe.sortedStringMapKeys", "f65d6e00fb717f3e"),
+     ("Scipipe.splitAllPaths", "f0f86c4e61d62025")] = true := by decide
+-- END PINS
+
 end SciVerif.Tie
+#print axioms SciVerif.Tie.pinned_skeletons_c14
 #print axioms SciVerif.Tie.generated_split_walk
 #print axioms SciVerif.Tie.c14_split_on_source
 #print axioms SciVerif.Tie.generated_consts_c14
